@@ -43,6 +43,9 @@ def render(n, c):
         return "\n".join(["t%d :: (p: %s) {}" % (n, B), "k%d :: () {" % n] + decl + ["    t%d(%s);" % (n, src), "}"])
     if pos == "ret":
         return "\n".join(["k%d :: () -> %s {" % (n, B)] + decl + ["    %s" % src, "}"])
+    if pos in ("flowl", "flowr", "flowi"):
+        e = {"flowl": "1 + a", "flowr": "a + 1", "flowi": "i + a"}[pos]
+        return "\n".join(["k%d :: () {" % n] + decl + ["    i : i32 = 2;", "    x : %s = %s;" % (B, e), "}"])
     if pos == "asg":
         return "\n".join(["k%d :: () {" % n] + decl + ["    b : %s = %s;" % (B, DEF[b]), "    b = %s;" % src, "}"])
     return "\n".join(["k%d :: () {" % n] + decl + ["    b : %s = %s;" % (B, DEF[b]), "    r := %s + b;" % src, "}"])
